@@ -40,12 +40,12 @@ Definition insert_before (where_ : nat) (tk : node) (l : list node) : list node 
 Definition sp_step (tidx : nat) (l : list node) : list node * nat :=
   let l1 :=
     match token_next false false tidx l with
-    | Some (_, next_) => if negb (tt_is next_ T_Whitespace) then insert_after tidx sp_token l else l
+    | Some (_, next_) => if negb (is_ws next_) then insert_after tidx sp_token l else l
     | None => l
     end in
   match token_prev false false tidx l1 with
   | Some (_, prev_) =>
-      if negb (tt_is prev_ T_Whitespace) then (insert_before tidx sp_token l1, S tidx) else (l1, tidx)
+      if negb (is_ws prev_) then (insert_before tidx sp_token l1, S tidx) else (l1, tidx)
   | None => (l1, tidx)
   end.
 
@@ -100,9 +100,9 @@ Fixpoint sp_pass (prev_ok pending : bool) (l : list node) : list node :=
       (if place then [sp_token] else []) ++
       (if is_sp_op t
        then
-         let after := match r with x :: _ => negb (tt_is x T_Whitespace) | [] => false end in
+         let after := match r with x :: _ => negb (is_ws x) | [] => false end in
          (if prev_ok' then [t] else [sp_token; t]) ++ sp_pass false after r
-       else t :: sp_pass (tt_is t T_Whitespace) pending' r)
+       else t :: sp_pass (is_ws t) pending' r)
   end.
 
 Definition sp_fun (l : list node) : list node := sp_pass true false l.
@@ -116,7 +116,7 @@ Fixpoint ops_ok (prev_ok : bool) (l : list node) : bool :=
   | [] => true
   | t :: r =>
       (if is_sp_op t then prev_ok && match r with [] => true | x :: _ => is_ws x end else true)
-      && ops_ok (tt_is t T_Whitespace) r
+      && ops_ok (is_ws t) r
   end.
 
 Fixpoint sp_nf (n : node) : bool :=
@@ -130,8 +130,8 @@ Fixpoint ops_ok_strict (prev_ok : bool) (l : list node) : bool :=
   match l with
   | [] => true
   | t :: r =>
-      (if is_sp_op t then prev_ok && match r with [] => true | x :: _ => tt_is x T_Whitespace end else true)
-      && ops_ok_strict (tt_is t T_Whitespace) r
+      (if is_sp_op t then prev_ok && match r with [] => true | x :: _ => is_ws x end else true)
+      && ops_ok_strict (is_ws t) r
   end.
 Fixpoint sp_nf_strict (n : node) : bool :=
   match n with
